@@ -23,6 +23,7 @@ func init() {
 			"the host function runs at activation depth 0 (CallByParam from Go), called from a Lua function whose locals hold guard sentinels (fixed-arity and vararg callers, so LocalBase is shifted), inside a coroutine, and after the registry has grown; the caller's guards and the values below the frame are re-read afterwards; " +
 			"(2) call contract: the full product nargs 0-3 x NRet {MultRet,0,1,2,5} x results produced 0-4 x callee {Lua, Go, __call table} x {Call, PCall, CallByParam protected/unprotected} x {returns, raises}: stack delta and contents equal the adjusted list, a failed protected call leaves neither arguments nor partial results (enumerated completely in both tiers); " +
 			"(3) object level: every pair from an operand pool (numbers, numeric and plain strings, booleans, nil, tables and userdata with __index/__newindex/__eq/__lt/__le/__concat/__len/__tostring/__metatable handlers) through GetTable/SetTable/GetField/SetField/GetGlobal/SetGlobal/Equal/RawEqual/LessThan/Concat/ObjLen/GetMetatable/ToStringMeta/Next compared with the corresponding Lua expression evaluated by a chunk in the same state on the same operands (value or error); " +
+			"part (2) runs at depth 0 and inside a host function, for PCall/CallByParam also with a handler that returns and one that fails, and ends by Push/Get through relative indices; every Go call of parts (3)/(4) runs between two sentinels in a host function and must leave that list unchanged; " +
 			"(4) random object cases: fresh tables/userdata whose metatables hold a random subset of __index/__newindex (function, table, chained to a second object)/__eq/__lt/__le (shared or private handlers, any truth value)/__concat/__len/__tostring/__metatable, one Go API call on one copy and the Lua expression on an identically built twin, comparing result-or-error, the log of handler invocations with their operands, and a raw dump of the object afterwards; GetGlobal/SetGlobal against a globals table carrying such __index/__newindex; " +
 			"part (2) also with Lua callees returning parameters, locals and varargs (registers below live registers) and NRet 0..6; part (1) also on small growable registries (size 40-128, grow step 1-32) so that the capacity is crossed inside the history; " +
 			"non-trivial = a history with >=20 ops, any call-contract tuple, any operand pair, any object case; distinct by content hash",
